@@ -184,29 +184,39 @@ func (h264dp *h264Depacketizer) depacketizeFuA(packet *Packet) (err error) {
 	return
 }
 
+// checkMetaReady 元数据（参数集）是否就绪；首次就绪时确定 dts 步长
+func (h264dp *h264Depacketizer) checkMetaReady() bool {
+	if !h264dp.metaReady {
+		if !h264.MetadataIsReady(h264dp.meta) {
+			return false
+		}
+		if h264dp.meta.FixedFrameRate {
+			h264dp.dtsStep = float64(time.Second) / h264dp.meta.FrameRate
+		}
+		h264dp.metaReady = true
+	}
+	return true
+}
+
 func (h264dp *h264Depacketizer) writeFrame(rtpTimestamp uint32, frame *codec.Frame) error {
 	nalType := frame.Payload[0] & 0x1f
+	h264dp.checkMetaReady() // SDP 中已带齐参数集时，第一帧之前就已就绪
 	switch nalType {
+	// 元数据就绪之前，后到的参数集替换先前的：第一个带内参数集若是损坏的，不能让流永远无法就绪
 	case h264.NalSps:
-		if len(h264dp.meta.Sps) == 0 {
+		if len(h264dp.meta.Sps) == 0 || !h264dp.metaReady {
 			h264dp.meta.Sps = frame.Payload
 		}
 	case h264.NalPps:
-		if len(h264dp.meta.Pps) == 0 {
+		if len(h264dp.meta.Pps) == 0 || !h264dp.metaReady {
 			h264dp.meta.Pps = frame.Payload
 		}
 	case h264.NalFillerData: // ?ignore...
 		return nil
 	}
 
-	if !h264dp.metaReady {
-		if !h264.MetadataIsReady(h264dp.meta) {
-			return nil
-		}
-		if h264dp.meta.FixedFrameRate {
-			h264dp.dtsStep = float64(time.Second) / h264dp.meta.FrameRate
-		}
-		h264dp.metaReady = true
+	if !h264dp.checkMetaReady() {
+		return nil
 	}
 
 	frame.Pts = h264dp.rtp2ntp(rtpTimestamp) + ptsDelay
